@@ -102,6 +102,16 @@ def build_coq(targets=None):
         return rc == 0, out
 
 
+def coqchk(prop):
+    """Thorough tier: the compiled property file and everything it depends on, re-checked by Coq's independent checker;
+    -o prints the axioms and the switched-off checks the whole closure relies on."""
+    with Lock("coq"):
+        rc, out = sh(["timeout", "2400", "coqchk", "-silent", "-o", "-Q", COQ, "EDS", "EDS.Properties.%s" % prop], 2500, cwd=COQ)
+    tail = out[-1500:]
+    clean = rc == 0 and "Axioms: <none>" in out and "type-in-type: <none>" in out.replace("Theory ", "").replace("Constants/Inductives relying on ", "")
+    return {"ok": rc == 0, "closure_axiom_free": "Axioms: <none>" in out, "report": tail, "clean": clean}
+
+
 def theorems_of(prop):
     p = os.path.join(COQ, "Properties", prop + ".v")
     if not os.path.exists(p):
@@ -396,6 +406,12 @@ def run_check(plugin, tier, seed, replay=None):
     if aud["open"] or "error" in aud:
         proof_broken.append("theorems not closed: %s %s" % (aud["open"], aud.get("error", "")[-800:]))
 
+    chk_report = None
+    if tier == "thorough" and not replay and not aud["open"] and "error" not in aud:
+        chk_report = coqchk(prop)
+        if not chk_report["ok"] or not chk_report["closure_axiom_free"]:
+            proof_broken.append("coqchk does not accept Properties/%s.vo axiom-free: %s" % (prop, chk_report["report"][-600:]))
+
     # 2. implementation side
     binary, golog = build_go(plugin.TAGS, race=getattr(plugin, "RACE", False))
     rng = random.Random(seed)
@@ -538,6 +554,10 @@ def run_check(plugin, tier, seed, replay=None):
         "assumptions": plugin.ASSUMPTIONS,
         "wall_s": round(wall, 2), "violations": 1 if exit_code else 0,
     }
+    if chk_report is not None:
+        ev["coverage"]["coqchk"] = {"cmd": "coqchk -silent -o -Q /verif/coq EDS EDS.Properties.%s" % prop, "accepted": chk_report["ok"],
+                                    "axioms_of_the_closure": "<none>" if chk_report["closure_axiom_free"] else "see report",
+                                    "report": chk_report["report"]}
     if notes:
         ev["coverage"]["notes"] = notes[:5]
     with open(os.path.join(ROOT, "evidence", prop + ".json"), "w") as f:
